@@ -105,7 +105,7 @@ PROPS = {
           "Non-trivial = the interrupted block issues >= 3 write statements; distinct by (chain, journal mode, call, before/after, mode).",
           quick=(8, 1), thorough=(16, 1), timeout=(900, 3300), shrinktime="20s", disk_scratch=True),
  "C18": P("TestC18", "exploration",
-          "controlled schedules: rapid generates 2.0.5 (PIP-10) and 2.0.2 chains and 2-10 pause points = SQL call ordinals of the sync goroutine (two thirds around BEGIN / the sync-height writes / COMMIT, "
+          "controlled schedules: rapid generates 2.0.5 (PIP-10; no ungraded heights inside short windows while C18/stale-rich-list-reload is open) and 2.0.2 chains and 2-10 pause points = SQL call ordinals of the sync goroutine (two thirds around BEGIN / the sync-height writes / COMMIT, "
           "before or after the call), each with 1-3 API calls (get-sync-status, get-pegnet-issuance, get-pegnet-balances, get-rich-list over all assets, get-global-rich-list, get-pegnet-rates, "
           "get-transaction-status, get-miner-distribution, get-transactions by height / address, get-transaction by txid, get-graded, get-bank for the block being applied and the last committed one, properties) served by the REAL JSON-RPC server on loopback "
           "while the sync goroutine is held inside the SQL hook. One call in five is dropped by its client in the middle of the handler (the handler is held at its k-th SQL call until the server has seen the "
